@@ -375,7 +375,7 @@ func runC13(c *fw.Case) (o fw.Outcome) {
 	case 0: // a repeated identity: what is given is what is carried (the builders do not interpret the list)
 		a.psis = append(a.psis, a.psis[r.Intn(len(a.psis))])
 	case 1: // a long list
-		for n := 16 + r.Intn(240); len(a.psis) < n; {
+		for n := pick(r, 256, 256, 255, 128, 16+r.Intn(241)); len(a.psis) < n; { // maxnoofPDUSessions = 256: the count goes on the wire as n-1
 			a.psis = append(a.psis, int64(r.Intn(256)))
 		}
 	}
@@ -436,7 +436,11 @@ func runC13(c *fw.Case) (o fw.Outcome) {
 			case "psi":
 				a.psi = pick(r, int64(256), 257, -1, 300, 1<<16, 9999)
 			case "psis":
-				if r.Intn(2) == 0 {
+				if k := r.Intn(5); k == 0 { // one item more than maxnoofPDUSessions, every identity in range
+					for len(a.psis) < 257 {
+						a.psis = append(a.psis, int64(r.Intn(256)))
+					}
+				} else if k <= 2 {
 					a.psis[r.Intn(len(a.psis))] = pick(r, int64(256), -1, 300, 70000)
 				} else { // out of range but congruent modulo 256 to an in-range identity given earlier in the same list
 					base := a.psis[r.Intn(len(a.psis))]
